@@ -32,4 +32,10 @@ def jobs(tier):
                          stubs=["per-interface hash pools empty (rules without interface only)", "bus_connection_remove_match_rule = ghost counter", "verbose logging compiled out in the harness TU"],
                          bounds=f"pool of {l} rules without interface key; each rule: owner in 2 connections, symbolic subset of {{member, sender, args, eavesdrop}}, strings <=2 bytes, one argN slot with symbolic kind/length/value",
                          shape=f"{nm}, {l} rules", cost=1 + l))
+    # C07.e: "RemoveMatch removes one rule equal to its argument or fails with MatchRuleNotFound" as the caller sees it (handler skeleton; found F13)
+    J.append(Job(name="e.remove_match.reply", group="C07.e", harness="harness/C13_addmatch.c", defines={"OP": 1}, real=["dbus/dbus-string.c"],
+                 env=["assert_stubs.c", "mem.c", "msg_model.c"], checks="assert", unwind=8, unwindset=["strcmp.0:48", "strlen.0:24"], timeout=300,
+                 encodes=["bus_driver_handle_remove_match", "bus_driver_send_ack_reply"], stubs=["parser / matchmaker / reply construction = outcome stubs with ghost counters"],
+                 assumes=["bus_dispatch answers a handler error other than NoMemory with an error reply in the same transaction (C03/C05 dispatch skeleton)"],
+                 bounds="every outcome of parsing, reply construction, reply staging and rule lookup", shape="RemoveMatch reply"))
     return J
